@@ -8,7 +8,9 @@ FP = ("distinct = distinct executed-schedule fingerprints (hash of the sequence 
 def register(prop):
     prop("C03", [dict(scn="C03", quick=400, thorough=40000)],
          "cluster plans: 3-8 real nodes, swarm-randomised config, loss/dup/delay/heavy-tail/partition/stream-cut among survivors, "
-         "victim crashes at a PRNG instant biased into joins and push/pulls; non-trivial = the victim was listed by >=1 survivor "
+         "victim crashes at a PRNG instant biased into joins and push/pulls; in half of the plans the victim flaps first (forged suspicion, refutation) and 2-6 stale leftovers of that "
+         "episode (dead/suspect at the older incarnation) reach survivors during their own suspicion; probe schedule judged from the wire tap and probeIndex (IndirectChecks=0): never self, never "
+         "a dead peer, every live peer within 2m-1 probes, and exactly once per pass of the cursor while live set and list order are unchanged; non-trivial = the victim was listed by >=1 survivor "
          "at/after the crash and was removed; " + FP,
          assumptions=["bound B = 2*N*(AwarenessMax*ProbeInterval+ProbeInterval) + AwarenessMax*ProbeInterval + SuspicionMaxTimeoutMult*SuspicionMult*max(1,log10 N)*ProbeInterval, N = number of node names in the plan",
                       "detection clock restarts when a survivor accepts a higher incarnation of the victim that was still in flight"])
@@ -60,12 +62,13 @@ def register(prop):
          "(chain/star/mutual), UpdateNode, user broadcasts/messages, graceful Leave of some members (leavers keep running); invariant at every scheduler "
          "step on every node: no non-leaver record suspect/dead, no suspicion timer, no suspect/dead broadcast queued about a non-leaver, no leave event "
          "for a non-leaver, health score 0; non-trivial = >=2 nodes joined and probes ran; " + FP)
-    prop("C05", [dict(scn="C05", quick=150, thorough=8000, wall_quick=150, wall_thorough=2400), dict(scn="C02I", quick=800, thorough=60000, wall_quick=60, wall_thorough=600, only=["update-lost"])],
+    prop("C05", [dict(scn="C05", quick=150, thorough=8000, wall_quick=150, wall_thorough=2400), dict(scn="C02I", quick=800, thorough=60000, wall_quick=60, wall_thorough=600, only=["update-lost"]),
+                 dict(scn="C02T", quick=1500, thorough=100000, wall_quick=40, wall_thorough=400, only=["refutation-never-reaches-accuser"])],
          "cluster plans: 3-8 real nodes; faulty phase with loss/dup/delay/heavy-tail, stream cut/stall/refuse, timed partitions (one-way, UDP-only), crash, "
          "same-address restart with reset incarnation and new meta, graceful leave, slow node, UpdateNode; faults stop at T_f; precondition (lists-graph connected) "
          "evaluated from the nodes' tables; oracle: Members() of every live node == live set with owners' latest meta, nobody suspect, within W; "
          "non-trivial = precondition true, >=2 live nodes, >=1 fault fired. C02I (loss-free 2-4 node cluster): when every UpdateNode racing accusations/concurrent updates returned nil, "
-         "the node and all peers show the owner's latest metadata within the budget; " + FP,
+         "the node and all peers show the owner's latest metadata within the budget. C02T: the refutation of an isolated node reaches its accuser on an ack; " + FP,
          assumptions=["W = 3*B(C03) + K*PushPullInterval + GossipToTheDeadTime with ((n-2)/(n-1))^K < 1e-12 (random peer selection makes W a budget, not a protocol constant)"])
     prop("C07", [dict(scn="C07", quick=150, thorough=8000, wall_quick=120, wall_thorough=2400), dict(scn="C04", quick=100, thorough=5000, wall_quick=60, wall_thorough=900),
                  dict(scn="C02I", quick=1500, thorough=100000, wall_quick=60, wall_thorough=600, only=["event-pattern", "event-members-mismatch", "event-set-mismatch", "event-concurrent"]),
@@ -75,7 +78,8 @@ def register(prop):
          "incl. meta, callbacks never overlap; non-trivial as in C05/C04. C02I: UpdateNode raced by accusations about the node: its own metadata in Members() changes only with an update event. "
          "C01L: concurrent claims about one member from 2-3 goroutines: the event log equals that of a sequential order of the claims (no double join, no join for a record Members() never shows); " + FP)
 
-    prop("C02", [dict(scn="C02", quick=20000, thorough=1500000, wall_quick=100, wall_thorough=1500), dict(scn="C02I", quick=1500, thorough=150000, wall_quick=90, wall_thorough=1200, only=["self-not-alive", "incarnation-decreased", "rank-regression", "event-pattern", "event-members-mismatch", "event-set-mismatch", "event-concurrent"])],
+    prop("C02", [dict(scn="C02", quick=20000, thorough=1500000, wall_quick=100, wall_thorough=1500), dict(scn="C02I", quick=1500, thorough=150000, wall_quick=90, wall_thorough=1200, only=["self-not-alive", "incarnation-decreased", "rank-regression", "event-pattern", "event-members-mismatch", "event-set-mismatch", "event-concurrent"]),
+                 dict(scn="C02T", quick=1500, thorough=100000, wall_quick=40, wall_thorough=400)],
          "bench mode: one real node accused by puppets: sequences of 1-10 suspect/dead/alive-about-self/push-pull entries (all four states) at incarnation own-1, own, own+1, "
          "own+k, 2^31, 2^32-3, same/different meta, valid/other/short/invalid version vectors, own/foreign address, via direct call, UDP packet, piggybacked on a ping, "
          "interleaved with UpdateNode and waits; after every step: lists itself alive, LocalNode sane, incarnation never decreases; must-refute class => incarnation "
@@ -83,14 +87,17 @@ def register(prop):
          "refutation; distinct = distinct accusation sequences. Restarts with a lower incarnation than peers remember are exercised by C05's restart ops. "
          "C02I (cluster mode, 2-4 real nodes): 1-3 UpdateNode episodes (optionally two concurrent calls) on one node, each raced by 0-4 forged suspect/dead/stale-alive packets about that "
          "node at own-1..own+5 placed -1ms..+100us around the call; the scheduler orders them at the update/alive/suspect/dead yield sites; per step: lists itself alive, incarnation "
-         "and own record never move backwards, events == Members(); at the end every UpdateNode has returned and, when all returned nil, the node and every peer show the latest metadata",
+         "and own record never move backwards, events == Members(); at the end every UpdateNode has returned and, when all returned nil, the node and every peer show the latest metadata. "
+         "C02T (bench, tickers ON): a node with no eligible gossip peer (fresh / isolated instance, known peers long dead) is accused by a peer it does not list, the accusation piggybacked on that "
+         "peer's ping; after 1-40 gossip intervals the refuting alive message must travel on the acknowledgement of one of the accuser's next pings (wire tap)",
          assumptions=["alive-about-self from a foreign address, with a malformed/short version vector is in the may-ignore class (only the unconditional half is checked)",
                       "accusations at the largest representable incarnation are excluded by the statement"])
 
     prop("C06", [dict(scn="C06", quick=20000, thorough=1500000, wall_quick=100, wall_thorough=1500), dict(scn="C06I", quick=3000, thorough=300000, wall_quick=60, wall_thorough=900)],
          "bench mode: real node knowing m in {1..40} peers (crosses n-2<k both ways), SuspicionMult/SuspicionMaxTimeoutMult 1-8, starts suspecting px (own evidence or another "
          "accuser) at t_s; timed script of 0-10 confirmations (distinct peers, duplicates, the accuser, the observer, the suspect, strangers, lower/higher incarnation) at "
-         "instants incl. +-1ns/+-2ms around the minimum, optionally refutation (+re-suspicion), third-party dead, leave; reference Lifeguard timer written from the paper; "
+         "instants incl. +-1ns/+-2ms around the minimum, push/pull merges listing the suspect as suspect/dead (hearsay: one confirmation in the observer's own name, never more), stale claims at older "
+         "incarnations, optionally refutation (+re-suspicion), third-party dead, leave; reference Lifeguard timer written from the paper; "
          "death instant compared in exact virtual time (tolerance 3ms + 0.1% of the maximum timeout); non-trivial = run reached a verdict; distinct = distinct (config, script) tuples. "
          "C06I: the timeout callback and a refutation (optionally followed by a re-suspicion) delivered -1us..+1us around the timer instant are interleaved by the scheduler at the "
          "susptimeout / susptimeout2 (after the validation, before the action) / alive / dead / suspect yield sites; whatever the order, the refuted peer must end up listed at the refuting incarnation",
@@ -132,7 +139,9 @@ def register(prop):
          "own send pipeline, captured at the tap and injected into a quiescent real receiver (tickers off) as: every single-bit flip of every byte incl. label header, version byte, nonce, "
          "body, tag and stream length prefix (complete enumeration per sampled message); plaintext original; sealed under a foreign / removed / installed-then-removed key or another label; "
          "label stripped/added/doubled; truncations, splices of two ciphertexts, overwrites, extensions; oracle per variant: reaction (membership digest, delegate calls, events, decoded "
-         "replies/acks/relays, stream reply class) is NOTHING (a rejected stream may get the generic error reply) or IDENTICAL to the reaction to the original; keys 16/24/32, protocol 1/2/5 "
+         "replies/acks/relays, stream reply class) is NOTHING (a rejected stream may get the generic error reply) or, for modifications of genuine ciphertext only, IDENTICAL to the reaction to the "
+         "original - variants that are not sealed under an installed key with the node's label (plaintext, foreign / removed key, ring constructed with the removed key listed twice, other label, "
+         "header stripped/added/doubled) must have NO effect; keys 16/24/32, protocol 1/2/5 "
          "(encryption v0/v1), 0-2 extra installed keys, label, compression; non-trivial = >=1 variant judged; distinct = distinct (message type, mode, configuration)",
          assumptions=["reactions are compared on decoded plaintext (nonces differ); receivers are pristine instances re-created after every accepted variant"])
 
@@ -259,7 +268,7 @@ META = {
  "C02": dict(
     level_text="Seeded accusation sequences against one real node with an exact per-step oracle (strictly outranking refutation, queued alive carries the new incarnation, health accounting), through direct calls and the packet pipeline; cluster restarts with reset incarnation are covered by C05's convergence oracle.",
     design_ref="DESIGN.md §3 C02", level_note=SIM_NOTE,
-    technique="deterministic simulation (bench mode): seeded accusation sequences vs refutation reference; restart histories in cluster mode"),
+    technique="deterministic simulation (bench mode): seeded accusation sequences vs refutation reference; restart histories in cluster mode; wire-tap check that an isolated node's refutation reaches its accuser (C02T)"),
  "C04": dict(
     level_text="Absence-of-event invariant (no suspicion, no accusation queued, no leave event, health 0) evaluated at every scheduler step of seeded healthy-cluster runs in which the delivery latency of every packet is drawn inside the stated bound; exploration over join orders, latency assignments and API interleavings.",
     design_ref="DESIGN.md §3 C04", level_note=SIM_NOTE,
@@ -271,11 +280,11 @@ META = {
  "C07": dict(
     level_text="History check over recorded EventDelegate logs of every simulated node: pattern per member, replay equals the Members-equivalent set captured atomically inside each callback and equals Members() at every scheduler step, no overlapping callbacks.",
     design_ref="DESIGN.md §3 C07", level_note=SIM_NOTE,
-    technique="deterministic simulation: recorded event history vs Members() refinement check at every scheduler step of fault-injected cluster runs"),
+    technique="deterministic simulation: recorded event history vs Members() refinement check at every scheduler step of fault-injected cluster runs; event log of concurrent claim programs vs a serial order (C01L)"),
  "C01": dict(
     level_text="Seeded sequences of membership claims against one real node with an exact per-claim reference (SWIM precedence + permitted reclaim), through direct calls and the real packet ingest pipeline, in virtual time so record age vs reclaim/suspicion timers is exact; the same rank-monotonicity invariant runs as a monitor at every scheduler step of the cluster scenarios (C03/C04/C05). Exploration over thousands of (prior x claim) combinations that the 25 hand-picked unit tests do not reach.",
     design_ref="DESIGN.md §3 C01", level_note=SIM_NOTE,
-    technique="deterministic simulation (bench mode): seeded claim sequences vs executable SWIM-precedence reference model; cluster-wide rank-monotonicity monitor"),
+    technique="deterministic simulation (bench mode): seeded claim sequences vs executable SWIM-precedence reference model; cluster-wide rank-monotonicity monitor; concurrent claim programs interleaved at yield hooks, linearizability against the library applied serially (C01L)"),
  "C17": dict(
     level_text="Keyring operation histories vs a sequential reference model plus scheduler-controlled interleaving of ring mutations with a decryption parked between two keys (the aliasing window), and (cluster part) rotation phases in PRNG node order with probe traffic between every pair at each intermediate step. Exploration fits: the failure needs a particular operation order / interleaving, not a particular value.",
     design_ref="DESIGN.md §3 C17", level_note=SIM_NOTE,
@@ -287,5 +296,5 @@ META = {
  "C03": dict(
     level_text="Seeded exploration of real multi-node clusters in virtual time: every survivor must drop a crashed member and emit a leave event within a bound computed from the documented configuration, under loss/dup/delay/partitions/stream cuts among survivors. Exploration is the right level: the property quantifies over schedules and fault sequences of a timed distributed protocol; thousands of simulated minutes per batch are affordable only in virtual time.",
     design_ref="DESIGN.md §3 C03", level_note=SIM_NOTE,
-    technique="deterministic simulation: seeded cluster runs with crash + fault injection, virtual-time bounded-liveness oracle"),
+    technique="deterministic simulation: seeded cluster runs with crash + fault injection, virtual-time bounded-liveness oracle; probe-schedule fairness (once per pass) from the wire tap"),
 }
